@@ -244,11 +244,42 @@ func init() {
 						obj = al
 					}
 				})
+				var newVals map[int]*ssa.Const
+				var newTouched map[int]bool
 				if obj == nil {
-					c.Undecided(relPkg(pn.Obj().Pkg().Path())+"."+pn.Obj().Name()+" / pool-new", newFn.Pos(), "the pool's New does not allocate the object in one place")
-					continue
+					// the object comes from a constructor the New function calls: its constant stores, then New's own
+					var ctorCall *ssa.Call
+					eachInstr(newFn, func(ins ssa.Instruction) {
+						if call, ok := ins.(*ssa.Call); ok && namedOf(call.Type()) == pn && call.Call.StaticCallee() != nil && inModule(fnPkgPath(call.Call.StaticCallee())) {
+							ctorCall = call
+						}
+					})
+					if ctorCall == nil {
+						c.Info(relPkg(pn.Obj().Pkg().Path())+"."+pn.Obj().Name()+" / pool-new", newFn.Pos(), "the pool's New neither allocates the object nor obtains it from a constructor of the module: fresh values unknown")
+						continue
+					}
+					ctor := ctorCall.Call.StaticCallee()
+					var inner ssa.Value
+					eachInstr(ctor, func(ins ssa.Instruction) {
+						if al, ok := ins.(*ssa.Alloc); ok && namedOf(al.Type()) == pn {
+							inner = al
+						}
+					})
+					if inner == nil {
+						c.Info(relPkg(pn.Obj().Pkg().Path())+"."+pn.Obj().Name()+" / pool-new", newFn.Pos(), "the constructor %s does not allocate the object itself: fresh values unknown", fnKey(ctor))
+						continue
+					}
+					newVals, newTouched = constFieldStores(ctor, func(v ssa.Value) bool { return v == inner })
+					ov, ot := constFieldStores(newFn, func(v ssa.Value) bool { return resolve(v) == ssa.Value(ctorCall) })
+					for k, t := range ot {
+						if t {
+							newTouched[k] = true
+							newVals[k] = ov[k]
+						}
+					}
+				} else {
+					newVals, newTouched = constFieldStores(newFn, func(v ssa.Value) bool { return v == obj })
 				}
-				newVals, newTouched := constFieldStores(newFn, func(v ssa.Value) bool { return v == obj })
 				// Reset: direct field stores through the receiver, and a whole-struct assignment `*o = T{...}`
 				recv := ssa.Value(reset.Params[0])
 				resetVals, resetTouched := constFieldStores(reset, func(v ssa.Value) bool { return resolve(v) == recv })
@@ -840,6 +871,139 @@ func init() {
 				c.Violate("ext/datasource / payload-bytes-shared", token.NoPos, "%s; and %s: the kept payload is overwritten by the next read", strings.Join(keeps, "; "), strings.Join(reuses, "; "))
 			default:
 				c.Hold("ext/datasource / payload-bytes-shared", token.NoPos, "handlers keeping the caller's bytes: %d; sources handing out reused buffers: %d (not both)", len(keeps), len(reuses))
+			}
+		},
+	})
+}
+
+func init() {
+	register(&Rule{
+		ID: "cb.deadline-written-only-when-opening", Props: []string{"C12", "C03"}, Floor: 2,
+		Doc: "outside the constructors the retry deadline of a breaker is written only as the arming step of a transition to Open: every write (updateNextRetryTimestamp or an atomic store / add / swap on nextRetryTimestampMs) dominates a CAS to Open in the same function. A write by any other transition (e.g. clearing it when the breaker closes) can land after a concurrent re-opening and wipe the deadline that one armed, so that a request is admitted before the retry timeout has elapsed",
+		Run: func(c *Ctx) {
+			_, sites := cbCasSites(c.P)
+			upd := c.P.Func(cbPkg + ".(*circuitBreakerBase).updateNextRetryTimestamp")
+			if upd == nil {
+				c.AnchorLost("updateNextRetryTimestamp")
+				return
+			}
+			n := 0
+			for _, f := range c.P.FuncsIn(modPath + "/" + cbPkg) {
+				if isTestOrExample(f) || f == upd || f.Blocks == nil {
+					continue
+				}
+				k := 0
+				for _, ci := range callsIn(f) {
+					writes := isStaticCallTo(ci, upd)
+					if an, ok := atomicFuncName(ci); ok && !strings.HasPrefix(an, "Load") && len(ci.Common().Args) > 0 {
+						if fa, ok := ci.Common().Args[0].(*ssa.FieldAddr); ok {
+							if _, fn := fieldOf(fa); fn == "nextRetryTimestampMs" {
+								writes = true
+							}
+						}
+					}
+					if !writes {
+						continue
+					}
+					n++
+					k++
+					arming := false
+					for _, s := range sites {
+						if s.ok && s.to == "Open" && s.fn == f && s.call != nil && instrDominates(ci.(ssa.Instruction), s.call) {
+							arming = true
+						}
+					}
+					c.Check(arming, fmt.Sprintf("%s / deadline-write#%d", fnKey(f), k), ci.Pos(), "this write of the retry deadline is followed by a CAS to Open in the same function (it arms the opening it belongs to)")
+				}
+			}
+		},
+	})
+}
+
+func init() {
+	register(&Rule{
+		ID: "cb.arming-transition-called-in-source-state", Props: []string{"C03", "C12"}, Floor: 6,
+		Doc: "a transition function that arms the retry deadline before its CAS to Open (fromClosedToOpen, fromHalfOpenToOpen) is called only where a state read has established the CAS's source state (`state == Closed`, a switch case, or the exclusion of the other two states): called in state Open by a straggler, the CAS fails but the deadline has already been pushed back, and requests stay rejected after the retry timeout has elapsed",
+		Run: func(c *Ctx) {
+			_, sites := cbCasSites(c.P)
+			upd := c.P.Func(cbPkg + ".(*circuitBreakerBase).updateNextRetryTimestamp")
+			names := cbStateNames(c.P)
+			if upd == nil || len(names) == 0 {
+				c.AnchorLost("updateNextRetryTimestamp / State constants")
+				return
+			}
+			isStateRead := func(v ssa.Value) bool {
+				call, ok := resolve(v).(*ssa.Call)
+				if !ok {
+					return false
+				}
+				cal := call.Call.StaticCallee()
+				if cal == nil || relPkg(fnPkgPath(cal)) != cbPkg {
+					return false
+				}
+				return cal.Name() == "CurrentState" || (cal.Name() == "get" && cal.Signature.Recv() != nil && typeIs(cal.Signature.Recv().Type(), cbPkg, "State"))
+			}
+			for _, s := range sites {
+				if !s.ok || s.to != "Open" || s.call == nil || isExitHookClosure(c.P, s.fn) {
+					continue
+				}
+				arms := false
+				for _, ci := range callsIn(s.fn) {
+					if storesDeadline(ci, upd) && instrDominates(ci.(ssa.Instruction), s.call) {
+						arms = true
+					}
+				}
+				if !arms {
+					continue
+				}
+				ord := map[*ssa.Function]int{}
+				for _, site := range c.P.StaticCallers(s.fn) {
+					f := site.Parent()
+					if isTestOrExample(f) {
+						continue
+					}
+					ord[f]++
+					k := ord[f]
+					// per state read: which states remain possible under the dominating facts
+					possible := map[ssa.Value]map[string]bool{}
+					for _, ft := range condFacts(site.Block()) {
+						bo, ok := ft.Cond.(*ssa.BinOp)
+						if !ok || (bo.Op != token.EQL && bo.Op != token.NEQ) {
+							continue
+						}
+						var rd ssa.Value
+						var kv int64
+						if v, isK := constInt(bo.Y); isK && isStateRead(bo.X) {
+							rd, kv = resolve(bo.X), v
+						} else if v, isK := constInt(bo.X); isK && isStateRead(bo.Y) {
+							rd, kv = resolve(bo.Y), v
+						} else {
+							continue
+						}
+						if possible[rd] == nil {
+							possible[rd] = map[string]bool{}
+							for _, nm := range names {
+								possible[rd][nm] = true
+							}
+						}
+						eq := (bo.Op == token.EQL) == ft.Truth
+						for nm := range possible[rd] {
+							if eq && nm != names[kv] {
+								delete(possible[rd], nm)
+							}
+							if !eq && nm == names[kv] {
+								delete(possible[rd], nm)
+							}
+						}
+					}
+					ok := false
+					for _, set := range possible {
+						if len(set) == 1 && set[s.from] {
+							ok = true
+						}
+					}
+					c.Check(ok, fmt.Sprintf("%s / call %s#%d", fnKey(f), s.fn.Name(), k), site.Pos(), "%s (which arms the retry deadline and then tries %s->Open) is called where a state read is known to be %s", s.fn.Name(), s.from, s.from)
+				}
 			}
 		},
 	})
